@@ -4,6 +4,8 @@ from props import gen_props
 
 
 def run(ctx):
+    from props import gen_unbounded
+    gen_unbounded.run_facilities(ctx)  # both origins, any shell name
     only = os.environ.get('PYVC_SHAPES')
     gen_props.run_property(ctx, 'C09', only.split(',') if only else None)
 
